@@ -19,11 +19,16 @@ open Wac Wac.Ast Wac.Lex Wac.Parse Wac.Spec.Grammar
 
 /-! ### types -/
 
-theorem nextTok_of_next_none {st : PState} {x : PState} (h : st.next = (none, x)) : nextTok st = none := by
-  unfold PState.next at h
+theorem toks_of_next_none {st : PState} {x : PState} (h : st.next = (none, x)) : st.toks = [] := by
   cases hs : st.toks with
-  | nil => exact nextTok_nil hs
-  | cons a r => rw [hs] at h; simp at h
+  | nil => rfl
+  | cons a r => rw [next_cons hs] at h; cases h
+
+theorem nextTok_of_next_none {st : PState} {x : PState} (h : st.next = (none, x)) : nextTok st = none :=
+  nextTok_nil (toks_of_next_none h)
+
+theorem peekTok_of_next_none {st : PState} {x : PState} (h : st.next = (none, x)) : peekTok st = none :=
+  peekTok_nil (toks_of_next_none h)
 
 /-- the `type | '_'` step of `result<…>` -/
 theorem typeOrHole_sound (pf : Nat)
@@ -37,6 +42,7 @@ theorem typeOrHole_sound (pf : Nat)
   split at h
   · rename_i hu
     rw [peekIs_iff] at hu
+    replace hu := nextTok_of_peekTok hu (.inl rfl)
     cases h
     have l1 : st.toks.length = st.next.2.toks.length + 1 := len_of_nextTok hu
     refine ⟨Suf.adv _, by omega, ?_⟩
@@ -71,6 +77,7 @@ theorem parseType_sound_step (pf : Nat)
     split at h
     iterate 13
       · rename_i hk
+        replace hk := nextTok_of_peekTok hk (.inl rfl)
         cases h
         have l1 := len_of_nextTok hk
         refine ⟨Suf.adv _, by omega, ?_⟩
@@ -80,7 +87,7 @@ theorem parseType_sound_step (pf : Nat)
     · -- tuple
       rename_i hk
       simp only [Except.bind_eq_ok, Prod.exists, parseToken_eq_ok] at h
-      obtain ⟨kw, st1, ⟨_, rfl, rfl⟩, t2, st2, ⟨h2, rfl, rfl⟩, h3⟩ := h
+      obtain ⟨kw, st1, ⟨hk, rfl, rfl⟩, t2, st2, ⟨h2, rfl, rfl⟩, h3⟩ := h
       split at h3
       · cases h3
       · simp only [Except.bind_eq_ok, Prod.exists] at h3
@@ -113,7 +120,7 @@ theorem parseType_sound_step (pf : Nat)
     · -- list
       rename_i hk
       simp only [Except.bind_eq_ok, Prod.exists, parseToken_eq_ok] at h
-      obtain ⟨kw, st1, ⟨_, rfl, rfl⟩, t2, st2, ⟨h2, rfl, rfl⟩, ty1, st3, hty, close, st4, ⟨h5, rfl, rfl⟩, h6⟩ := h
+      obtain ⟨kw, st1, ⟨hk, rfl, rfl⟩, t2, st2, ⟨h2, rfl, rfl⟩, ty1, st3, hty, close, st4, ⟨h5, rfl, rfl⟩, h6⟩ := h
       cases h6
       obtain ⟨hs3, hl3, hm3⟩ := ih _ _ _ hty
       have l1 := len_of_nextTok hk
@@ -127,7 +134,7 @@ theorem parseType_sound_step (pf : Nat)
     · -- option
       rename_i hk
       simp only [Except.bind_eq_ok, Prod.exists, parseToken_eq_ok] at h
-      obtain ⟨kw, st1, ⟨_, rfl, rfl⟩, t2, st2, ⟨h2, rfl, rfl⟩, ty1, st3, hty, close, st4, ⟨h5, rfl, rfl⟩, h6⟩ := h
+      obtain ⟨kw, st1, ⟨hk, rfl, rfl⟩, t2, st2, ⟨h2, rfl, rfl⟩, ty1, st3, hty, close, st4, ⟨h5, rfl, rfl⟩, h6⟩ := h
       cases h6
       obtain ⟨hs3, hl3, hm3⟩ := ih _ _ _ hty
       have l1 := len_of_nextTok hk
@@ -141,7 +148,7 @@ theorem parseType_sound_step (pf : Nat)
     · -- result
       rename_i hk
       simp only [Except.bind_eq_ok, Prod.exists, parseToken_eq_ok] at h
-      obtain ⟨kw, st1, ⟨_, rfl, rfl⟩, h2⟩ := h
+      obtain ⟨kw, st1, ⟨hk, rfl, rfl⟩, h2⟩ := h
       obtain ⟨r, st2, hopt, h3⟩ := h2
       rw [parseOptional_eq_ok] at hopt
       have l1 := len_of_nextTok hk
@@ -161,15 +168,16 @@ theorem parseType_sound_step (pf : Nat)
           intro gf hgf
           obtain ⟨g, rfl⟩ : ∃ g, gf = g + 1 := ⟨gf - 1, by omega⟩
           simp [gType, hk, hlt, eraseTy]
-          right; right
-          exact ⟨_, _, hm3 g (by omega), (), abs (adv st3), by simp [hc], _, _, hm4 g (by omega),
-            by simp [h5], rfl, rfl⟩
+          right
+          exact ⟨_, _, hm3 g (by omega), .inl ⟨some (eraseTyOpt e), abs st4,
+            ⟨eraseTyOpt e, ⟨(), abs (adv st3), by simp [hc], hm4 g (by omega)⟩, rfl⟩,
+            ⟨(), by simp [h5]⟩, rfl, rfl⟩⟩
         · refine ⟨(Suf.adv _).trans (hs3.trans ((Suf.adv _).trans (Suf.adv _))), by omega, ?_⟩
           intro gf hgf
           obtain ⟨g, rfl⟩ : ∃ g, gf = g + 1 := ⟨gf - 1, by omega⟩
           simp [gType, hk, hlt, eraseTy]
-          right; left
-          exact ⟨_, _, hm3 g (by omega), by simp [h5], rfl, rfl⟩
+          right
+          exact ⟨_, _, hm3 g (by omega), .inr ⟨⟨(), by simp [h5]⟩, rfl, rfl⟩⟩
       · cases h3
         refine ⟨Suf.adv _, by omega, ?_⟩
         intro gf hgf
@@ -178,7 +186,7 @@ theorem parseType_sound_step (pf : Nat)
     · -- borrow
       rename_i hk
       simp only [Except.bind_eq_ok, Prod.exists, parseToken_eq_ok, parseIdent_eq_ok] at h
-      obtain ⟨kw, st1, ⟨_, rfl, rfl⟩, t2, st2, ⟨h2, rfl, rfl⟩, id, st3, ⟨h3, rfl, rfl⟩, close, st4, ⟨h5, rfl, rfl⟩, h6⟩ := h
+      obtain ⟨kw, st1, ⟨hk, rfl, rfl⟩, t2, st2, ⟨h2, rfl, rfl⟩, id, st3, ⟨h3, rfl, rfl⟩, close, st4, ⟨h5, rfl, rfl⟩, h6⟩ := h
       cases h6
       have l1 := len_of_nextTok hk
       have l2 := len_of_nextTok h2
@@ -191,7 +199,7 @@ theorem parseType_sound_step (pf : Nat)
     · -- identifier
       rename_i hk
       simp only [Except.bind_eq_ok, Prod.exists, parseIdent_eq_ok] at h
-      obtain ⟨id, st1, ⟨_, rfl, rfl⟩, h2⟩ := h
+      obtain ⟨id, st1, ⟨hk, rfl, rfl⟩, h2⟩ := h
       cases h2
       have l1 := len_of_nextTok hk
       refine ⟨Suf.adv _, by omega, ?_⟩
@@ -200,7 +208,7 @@ theorem parseType_sound_step (pf : Nat)
       simp [gType, hk, mem_gId, and_assoc, eraseTy, erase_identAt]
     · cases h
   · rename_i x hn
-    have := nextTok_of_next_none hn
+    have := peekTok_of_next_none hn
     simp [this] at h
 
 theorem parseType_sound (pf : Nat) (st : PState) (ty : Ty) (st' : PState)
@@ -245,6 +253,7 @@ theorem paramList_sound (pf : Nat) (st : PState) (ps : List NamedType) (st3 : PS
   obtain ⟨hs3, hp3, hl3⟩ := parseDelimited_struct _ _ _ _
     (fun st x st1 hx => ⟨(parseNamedType_sound pf st x st1 hx).1, (parseNamedType_sound pf st x st1 hx).2.1⟩)
     _ _ _ _ hd
+  replace hp3 := nextTok_of_peekTok hp3 (.inl rfl)
   have l1 := len_of_nextTok h1
   have l3 := len_of_nextTok hp3
   have hl3' := hs3.len
@@ -298,7 +307,7 @@ theorem parseFuncTypeRef_sound (pf : Nat) (st : PState) (f : FuncTypeRef) (st' :
     exact hm gf hgf
   · rename_i hk
     simp only [Except.bind_eq_ok, Prod.exists, parseIdent_eq_ok] at h
-    obtain ⟨id, st1, ⟨_, rfl, rfl⟩, h2⟩ := h
+    obtain ⟨id, st1, ⟨hk, rfl, rfl⟩, h2⟩ := h
     cases h2
     have l1 := len_of_nextTok hk
     refine ⟨Suf.adv _, by omega, ?_⟩
@@ -314,7 +323,7 @@ theorem parseResourceMethod_sound (pf : Nat) (st : PState) (m : ResourceMethod) 
   · -- constructor
     rename_i hk
     simp only [parseConstructor, Except.bind_eq_ok, Prod.exists, parseToken_eq_ok] at h
-    obtain ⟨c, st1, ⟨kw, st2, ⟨_, rfl, rfl⟩, t2, st3, ⟨h2, rfl, rfl⟩, ps, st4, hd, t5, st5, ⟨h5, rfl, rfl⟩,
+    obtain ⟨c, st1, ⟨kw, st2, ⟨hk, rfl, rfl⟩, t2, st3, ⟨h2, rfl, rfl⟩, ps, st4, hd, t5, st5, ⟨h5, rfl, rfl⟩,
       t6, st6, ⟨h6, rfl, rfl⟩, h7⟩, h8⟩ := h
     cases h7; cases h8
     obtain ⟨hs3, hl3, hm3⟩ := paramList_sound pf _ _ _ h2 hd
@@ -327,7 +336,7 @@ theorem parseResourceMethod_sound (pf : Nat) (st : PState) (m : ResourceMethod) 
   · -- method
     rename_i hk
     simp only [parseMethod, Except.bind_eq_ok, Prod.exists, parseToken_eq_ok, parseIdent_eq_ok] at h
-    obtain ⟨m, st1, ⟨id, st2, ⟨_, rfl, rfl⟩, t2, st3, ⟨h2, rfl, rfl⟩, ft, st4, hft, t5, st5, ⟨h5, rfl, rfl⟩,
+    obtain ⟨m, st1, ⟨id, st2, ⟨hk, rfl, rfl⟩, t2, st3, ⟨h2, rfl, rfl⟩, ft, st4, hft, t5, st5, ⟨h5, rfl, rfl⟩,
       h7⟩, h8⟩ := h
     cases h7; cases h8
     have l1 := len_of_nextTok hk
@@ -336,6 +345,7 @@ theorem parseResourceMethod_sound (pf : Nat) (st : PState) (m : ResourceMethod) 
     by_cases hst : peekIs (adv (adv st)) .StaticKeyword = true
     · simp only [hst, if_true] at hft
       rw [peekIs_iff] at hst
+      replace hst := nextTok_of_peekTok hst (.inl rfl)
       change parseFuncType pf (adv (adv (adv st))) = _ at hft
       obtain ⟨hs4, hl4, hm4⟩ := parseFuncType_sound _ _ _ _ hft
       have l3 := len_of_nextTok hst
@@ -364,6 +374,7 @@ theorem parseResourceDecl_sound (pf : Nat) (st : PState) (d : ResourceDecl) (st'
   have l2 := len_of_nextTok h2
   split at h3
   · rename_i hk
+    replace hk := nextTok_of_peekTok hk (.inl rfl)
     cases h3
     have l3 := len_of_nextTok hk
     refine ⟨(Suf.adv _).trans ((Suf.adv _).trans (Suf.adv _)), by show (adv (adv (adv st))).toks.length < _; omega, ?_⟩
@@ -372,7 +383,7 @@ theorem parseResourceDecl_sound (pf : Nat) (st : PState) (d : ResourceDecl) (st'
     simp [gResourceDecl, h1, h2, hk, mem_gId, and_assoc, eraseResourceDecl, erase_identAt]
   · rename_i hk
     simp only [Except.bind_eq_ok, Prod.exists, parseToken_eq_ok] at h3
-    obtain ⟨t4, st4, ⟨_, rfl, rfl⟩, ms, st5, hd, t6, st6, ⟨h6, rfl, rfl⟩, h7⟩ := h3
+    obtain ⟨t4, st4, ⟨hk, rfl, rfl⟩, ms, st5, hd, t6, st6, ⟨h6, rfl, rfl⟩, h7⟩ := h3
     cases h7
     have l3 := len_of_nextTok hk
     have l6 := len_of_nextTok h6
@@ -398,7 +409,7 @@ theorem list1_sound {α β : Type} (stop : Token) (peeks : List Token) (item : P
     (hitem : ∀ st x st1, item st = .ok (x, st1) → Sound er p 0 st x st1)
     (pf : Nat) (st : PState) (xs : List α) (st3 : PState)
     (hd : parseDelimited stop true peeks item pf st = .ok (xs, st3)) (hne : ¬ xs.isEmpty = true) :
-    Suf st3 st ∧ st3.toks.length < st.toks.length ∧ nextTok st3 = some stop ∧
+    Suf st3 st ∧ st3.toks.length < st.toks.length ∧ peekTok st3 = some stop ∧
     ∀ gf, st.toks.length ≤ st3.toks.length + gf → (xs.map er, abs st3) ∈ list1 (p gf) gf (abs st) := by
   obtain ⟨hs3, hp3, hl3⟩ := parseDelimited_struct _ _ _ _
     (fun st x st1 hx => ⟨(hitem st x st1 hx).1, (hitem st x st1 hx).2.1⟩) _ _ _ _ hd
